@@ -300,6 +300,16 @@ LOOP:
 			}
 			r.seg = nextSeg
 			r.pos = 0
+			if r.hwSeg != nil && r.hwSeg != nextSeg && r.hwSeg.BaseOffset == nextSeg.BaseOffset {
+				// The segment holding the HW was replaced (truncation or
+				// compaction) since the HW position was resolved. Resolve it
+				// again on the new segment, otherwise the limit below is never
+				// applied and messages above the HW are returned.
+				if hwIdx, hwPos, hwErr := getHWPos(segments, r.hw); hwErr == nil {
+					r.hwSeg = segments[hwIdx]
+					r.hwPos = hwPos
+				}
+			}
 			continue
 		}
 
